@@ -176,6 +176,19 @@ PROPS = {
                      "update_rates beyond 2 groups (bounded stand-in)"],
         unreached=["CongressSample::sample_rate / format (ahash map, Instant)"],
     ),
+    "C13": dict(
+        verus=[("slot", {})],
+        technique="Verus contracts on the real slot functions: make_slot, Slot::new, Slot::open, LazySlot::open, SlotGuard::delay_flush, SlotGuard's Drop::drop, Waiting::take_value, Slot::close (oneshot channel as effect witnesses)",
+        level_text="Deductive proof (Verus/z3) of the sequential half of the slot protocol, for every slot state: a slot (and a lazy slot) hands out its guard the first time it is opened and None afterwards, with the chosen parent-drop mode; "
+                   "dropping the guard sends the value as last mutated through it, closed, exactly once (the sender is consumed), leaves the guard Dropped, and still holds its flush guard when drop() returns (so in wait mode the "
+                   "parent's flush guard is released only after the value is on its way); delay_flush stores the flush guard; closing the parent never waits: it returns data already received, else only a value the channel has delivered. "
+                   "NOT decided: that a value sent before the close is the one try_recv delivers and the cross-thread order between the guard's send, the release of its flush guard and the parent's close (tokio oneshot, Drop glue, keep_alive.rs).",
+        level_note="Trusted: Verus + z3; tokio's oneshot as a stand-in (send consumes the sender and is witnessed by `sent`, try_recv never blocks and returns only `delivered` values); std::mem::replace; Rust drops a struct's fields after its Drop::drop returns. "
+                   "Drop::drop and CloseValue::close are verified as inherent methods so that the type invariants (a live guard is Writable; a slot has data or a receiver) can be stated as preconditions.",
+        explanation="slot open / guard drop / close, sequential contracts",
+        assumptions=["tokio oneshot: a value sent before try_recv is delivered by it; a dropped sender closes the channel", "field drop order (flush guard released after Drop::drop)"],
+        unreached=["Slot::wait_for_data (async)", "keep_alive.rs Guard / DropAll / Parent (Arc + Mutex + closure protocol)", "cross-thread interleavings"],
+    ),
     "C14": dict(
         verus=[("emf_fresh", {}), ("emf_value", {}, ["write_metric_value"]), ("emf_finish", {})],
         technique="Verus: freshness obligation generated from the field list of the real struct State, discharged at the entry.write call of the extracted real format_with_multiplicity; write_metric_value contract independent of old counts_buf",
